@@ -1,4 +1,5 @@
 CONSTANTS
+  Dev = {}
   Mut = {}
 SPECIFICATION TSpec
 INVARIANT I_ServedWasSaid
